@@ -97,6 +97,9 @@ def _run(chk, binary, rng, thorough, nsc, nruns):
             files.append(("f%02d.txt" % k, ("\n".join(lines) + "\n").encode()))
         scs.append(("files", {"files": files, "opts": [], "cmds": ["-m", "yiw", "-g", "^MARK|(\\w{2,9} ){3}ZZZ", "-m", "P", "--end"], "stdin": None,
                               "threads": [16, 12, 8, 16, 12]}))
+    # one file, one worker against four: the same bytes (which driver does the work must not show)
+    scs.append(("files", {"files": [("only.txt", big_text(rng, 12).encode())], "opts": [], "cmds": ["-c", "e", "-m", "w", "-c", "e"], "stdin": None, "threads": [1, 4, 1, 8, 2]}))
+    scs.append(("files", {"files": [("only.txt", big_text(rng, 5).encode())], "opts": ["--json"], "cmds": ["-c", "e"], "stdin": None, "threads": [1, 4, 1, 8, 2]}))
     # several files, the biggest in the middle, one JSON document: the files come in the order they were given
     scs.append(("files", {"files": [("a1.txt", b"ab cd\n"), ("b2.txt", big_text(rng, 40).encode()), ("c3.txt", b"zz yy\n")], "opts": ["--json"], "cmds": ["-c", "e", "-m", "w", "-c", "name=w2", "e"], "stdin": None}))
     # the same with many small files: little work per unit, so workers are forever looking for something to steal
@@ -125,7 +128,7 @@ def _run(chk, binary, rng, thorough, nsc, nruns):
             # (several files, --linewise, --json: the parallel driver nests each line's document, the serial one does not;
             # those runs are compared with each other and not with --serial)
             nf = rng.choice([1, 2, 3, 5, 8, 8, 8])
-            names = ["f%02d.txt" % (rng.randint(0, 99)) for _ in range(nf)]
+            names = [rng.choice(["f%02d.txt", "f%02d.txt", "n%02d", ".h%02d"]) % (rng.randint(0, 99)) for _ in range(nf)]      # (with and without an extension)
             names = list(dict.fromkeys(names))
             rng.shuffle(names)
             files = [(nm, big_text(rng, rng.choice([0, 1, 3, 20, 20, 20, 11] if from_grammar else [0, 1, 3, 20, 150, 600, nlines // 4 + 1])).encode()) for nm in names]
@@ -134,6 +137,8 @@ def _run(chk, binary, rng, thorough, nsc, nruns):
                 opts.append("--linewise")
             if "inplace" in kind:
                 opts.append("-i")
+                if rng.random() < 0.4:
+                    opts.append("--backup")        # the backups are files the run leaves behind, like the others
             sc = {"files": files, "opts": opts, "cmds": prog, "stdin": None}
         scs.append((kind, sc))
     dist = {}
@@ -145,6 +150,8 @@ def _run(chk, binary, rng, thorough, nsc, nruns):
         plan.append((si, -1, None, None))
         for k in range(nruns):
             th = sc["threads"][k % len(sc["threads"])] if "threads" in sc else rng.choice(THREADS + [8, 16, 16])
+            if "threads" not in sc and si % 3 == 0 and k < 2:
+                th = 1 if k == 0 else rng.choice([2, 4, 8, 16])      # one worker against several, for every third scenario
             plan.append((si, k, th, rng.randint(1, 10**6)))
 
     def one(job):
